@@ -15,7 +15,7 @@ Positions == {"TYPE", "TYPE-regex", "Request", "Request-Body", "Request-regex", 
               "Headers-req", "Headers-resp", "Query", "Path", "Params", "Result", "ENUM",
               "RESP-first-of-two", "RESP-middle-of-three", "Request-headers-only"}
 Defects == {"none", "syntax", "example-vs-type", "example-vs-range", "undefined-type", "undefined-enum", "undefined-rule",
-            "invalid-regex", "unsatisfiable-regex", "regex-matching-empty", "not-an-object", "duplicate-key", "bad-allOf", "or-mismatch", "no-body"}
+            "invalid-regex", "unsatisfiable-regex", "regex-matching-empty", "not-an-object", "duplicate-key", "bad-allOf", "or-mismatch", "or-on-object", "only-annotation", "no-body"}
 
 DefectText == [d \in Defects |->
   CASE d = "none" -> "{\n  \"id\": 1\n}"
@@ -30,6 +30,8 @@ DefectText == [d \in Defects |->
     [] d = "regex-matching-empty" -> "/a*/"                        \* legal; the example may be the empty string
     [] d = "not-an-object" -> "[1, 2]"
     [] d = "duplicate-key" -> "{\n  \"id\": 1,\n  \"id\": 2\n}"
+    [] d = "or-on-object" -> "{} // {or: [{type: \"object\"}, {type: \"string\"}]}"     \* found by the marshaler only (example generation)
+    [] d = "only-annotation" -> "// x"                                                   \* a body that is nothing but an annotation
     [] d = "bad-allOf" -> "{ // {allOf: \"@nope\"}\n  \"id\": 1\n}"
     [] OTHER -> "{\n  \"id\": 1 // {or: [\"string\", \"boolean\"]}\n}"]
 
@@ -39,7 +41,7 @@ Applies(p, d) == IF p \in NoBodyPos THEN d = "no-body"            \* a response 
                  ELSE IF d = "no-body" THEN FALSE
                  ELSE IF p \in {"TYPE-regex", "Request-regex", "RESP-regex"} THEN d \in {"none", "invalid-regex", "unsatisfiable-regex", "regex-matching-empty"}
                  ELSE IF p = "ENUM" THEN d \in {"none", "syntax"}
-                 ELSE d \notin {"invalid-regex", "unsatisfiable-regex", "regex-matching-empty"}
+                 ELSE d \notin {"invalid-regex", "unsatisfiable-regex", "regex-matching-empty"} /\ (d = "only-annotation" => p \notin {"Path", "Headers-req", "Headers-resp", "Query"})
 
 \* what the build has to reject so that marshalling cannot fail later
 MustReject(p, d) == d \notin {"none", "regex-matching-empty"} /\ ~(d = "not-an-object" /\ p \notin {"Headers-req", "Headers-resp", "Path"})
